@@ -756,7 +756,7 @@ func replayC39(env *mc.Env, raw json.RawMessage) (bool, string) {
 
 func init() {
 	mc.Register(&mc.Check{
-		ID: "C39",
+		ID:   "C39",
 		Rule: "formatter.Format on (a) every program of the srcgen corpus (depth 2) without comments; (b) every program of the reduced corpus x a comment at every token gap x comment spelling {inline block, trailing line, own-line line, own-line block [, ///, /** */ thorough]}; (c) comments at every pair of gaps of the 200 [600] smallest programs; (d) every separator {newline, blank lines, ;, ;newline, ;;, comment-bearing separators} between statement pairs / declaration pairs / member pairs; (e) the 31 non-default option combinations (LineWidth {20,100} x indent {4 spaces, tab} x SortImports x StripSemicolons x KeepBlankLines {0,1}) over a reduced corpus, commented whole programs and import blocks. Oracle: Format error allowed; else output parses (default parser config) to the same position-free AST JSON (import declarations compared as a multiset at the import positions), the multiset of comment texts found by an independent scanner is unchanged, and Format(out)==out. non-trivial = case with a comment, separator variant or non-default options whose Format succeeded",
 		Assumptions: []string{
 			"comment texts are extracted by the harness's own scanner (strings, template interpolation nesting, nested block comments)",
